@@ -443,6 +443,10 @@ class ClientWorldObjectManager:
             # an explicit follow-up update?
             child_obj = region_state.lookup_localid(child_id)
             if child_obj and child_obj.PCode == PCode.AVATAR:
+                if not obj:
+                    # Was only known as an orphan of the killed ID, and collect_orphans() just
+                    # took it out of the orphan list. It survives, so it's still an orphan.
+                    region_state._track_orphan(child_id, parent_id=local_id)
                 continue
             self._kill_object_by_local_id(region_state, child_id)
 
